@@ -282,6 +282,9 @@ func Run(prog []gen.Cmd, o Opts) ([]Div, Stats) {
 			continue
 		}
 		name := strings.ToUpper(string(cmd[0]))
+		if !model.Known(name) {
+			name = "(unknown command)" // the name may be any bytes; signatures stay one printable line
+		}
 		if o.Journal != nil {
 			fmt.Fprintf(o.Journal, "P %d S %d %s\n", o.Prog, i, strings.Join(QuoteFull(cmd), " "))
 		}
